@@ -136,6 +136,42 @@ def reader_slices(work):
     return out + fl
 
 
+def reader_jobs(work, builder, for_c06=False):
+    """The K1 jobs.  With for_c06 the same scripts are compiled with -DFOR_C06: only the XPath obligations (c06.reader.*) are asserted."""
+    rs = reader_slices(work)
+    robj = builder.cc(os.path.join(CDIR, "xr04.cpp"), includes=[work, CDIR], cpp=True)
+    defs = ["EXCLUDE_KF"] + (["FOR_C06"] if for_c06 else [])
+    rh = builder.cc(os.path.join(CDIR, "h_xr04.c"), includes=[work, CDIR], defines=defs)
+    rh_kf = builder.cc(os.path.join(CDIR, "h_xr04.c"), includes=[work, CDIR])
+    pre = "c06_xpath_" if for_c06 else "c04_reader_"
+    jobs = []
+    FS = ["--max-field-sensitivity-array-size", "256"]  # constant propagation per cell for the script arrays (120 / 256 cells)
+    common = ["XMLReader::begin", "XMLReader::end", "XMLReader::read", "XMLReader::getAttribute"]
+    tf = ["XMLReader::transition", "XMLReader::source", "XMLReader::target", "XMLReader::reference", "XMLReader::get_name", "XMLReader::label (kind table generated from it)", "XMLReader::parse"]
+    lf = ["XMLReader::location", "XMLReader::invariant", "XMLReader::urgent", "XMLReader::committed", "XMLReader::getAttributeStr"]
+    shape_note = "one job per concrete shape of the element (number of labels / nails / flags, with or without white-space nodes); ids, names, texts, label kinds and attribute values are arbitrary"
+    tshapes = ("0000", "0011", "0110", "1001", "1010", "1100", "2000", "2011", "2110")
+    lshapes = ("00001", "01100", "02011", "10110", "11001", "12100", "12011", "02110", "11111")
+    if for_c06:
+        tshapes = tuple(s for s in tshapes if s[0] != "0")
+    for sh in tshapes:
+        jobs.append(F.Job(pre + "transition_" + sh, "h_c04_reader_transition_" + sh, [robj, rh], unwind=30, functions=tf + common, bound_note=shape_note, cbmc_args=FS))
+    kf_shapes = []
+    for sh in lshapes:
+        jobs.append(F.Job(pre + "location_" + sh, "h_c04_reader_location_" + sh, [robj, rh], unwind=30, functions=lf + common, bound_note=shape_note, cbmc_args=FS,
+                          note="known-finding class (rate label before invariant label) excluded: must pass" if (sh[1] == "2" and not for_c06) else ""))
+        if sh[1] == "2":
+            kf_shapes.append(sh)
+    if not for_c06:
+        jobs.append(F.Job("c04_reader_init", "h_c04_reader_init", [robj, rh], unwind=30, functions=["XMLReader::init", "XMLReader::get_name"] + common, cbmc_args=FS))
+    jobs.append(F.Job(pre + "branchpoint", "h_c04_reader_branchpoint", [robj, rh], unwind=30, functions=["XMLReader::branchpoint", "XMLReader::getAttributeStr"] + common, cbmc_args=FS))
+    if not for_c06:
+        for sh in kf_shapes:
+            jobs.append(F.Job("c04_kf1_reader_location_" + sh, "h_c04_reader_location_" + sh, [robj, rh_kf], unwind=30, functions=lf, cbmc_args=FS,
+                              known={r"invariant-and-rate-reach-the-builder-in-the-order-it-takes-them": "C04-KF1"}, note="unrestricted: fails exactly inside the known-finding class"))
+    return jobs, rs
+
+
 def build(tier, work, builder):
     w8 = os.path.join(work, "c08"); os.makedirs(w8, exist_ok=True)
     b8 = C08.build(tier, w8, builder)       # writes document_ctors.inc, expr_*.inc, kinds.h into w8
@@ -160,28 +196,8 @@ def build(tier, work, builder):
     inst[0].note = "Document::add_instance (contracts/C08): new bindings keyed by the instantiated instance's own parameters, inherited ones kept, the instantiated instance itself unchanged"
     jobs.append(inst[0])
     # ---- K1: reader side
-    rs = reader_slices(work)
-    robj = builder.cc(os.path.join(CDIR, "xr04.cpp"), includes=[work, CDIR], cpp=True)
-    rh = builder.cc(os.path.join(CDIR, "h_xr04.c"), includes=[work, CDIR], defines=["EXCLUDE_KF"])
-    rh_kf = builder.cc(os.path.join(CDIR, "h_xr04.c"), includes=[work, CDIR])
-    FS = ["--max-field-sensitivity-array-size", "256"]  # constant propagation per cell for the script arrays (120 / 256 cells)
-    common = ["XMLReader::begin", "XMLReader::end", "XMLReader::read", "XMLReader::getAttribute"]
-    tf = ["XMLReader::transition", "XMLReader::source", "XMLReader::target", "XMLReader::reference", "XMLReader::get_name", "XMLReader::label (kind table generated from it)", "XMLReader::parse"]
-    lf = ["XMLReader::location", "XMLReader::invariant", "XMLReader::urgent", "XMLReader::committed", "XMLReader::getAttributeStr"]
-    shape_note = "one job per concrete shape of the element (number of labels / nails / flags, with or without white-space nodes); ids, names, texts, label kinds and attribute values are arbitrary"
-    for sh in ("0000", "0011", "0110", "1001", "1010", "1100", "2000", "2011", "2110"):
-        jobs.append(F.Job("c04_reader_transition_" + sh, "h_c04_reader_transition_" + sh, [robj, rh], unwind=30, functions=tf + common, bound_note=shape_note, cbmc_args=FS))
-    kf_shapes = []
-    for sh in ("00001", "01100", "02011", "10110", "11001", "12100", "12011", "02110", "11111"):
-        jobs.append(F.Job("c04_reader_location_" + sh, "h_c04_reader_location_" + sh, [robj, rh], unwind=30, functions=lf + common, bound_note=shape_note, cbmc_args=FS,
-                          note="known-finding class (rate label before invariant label) excluded: must pass" if sh[1] == "2" else ""))
-        if sh[1] == "2":
-            kf_shapes.append(sh)
-    jobs.append(F.Job("c04_reader_init", "h_c04_reader_init", [robj, rh], unwind=30, functions=["XMLReader::init", "XMLReader::get_name"] + common, cbmc_args=FS))
-    jobs.append(F.Job("c04_reader_branchpoint", "h_c04_reader_branchpoint", [robj, rh], unwind=30, functions=["XMLReader::branchpoint", "XMLReader::getAttributeStr"] + common, cbmc_args=FS))
-    for sh in kf_shapes:
-        jobs.append(F.Job("c04_kf1_reader_location_" + sh, "h_c04_reader_location_" + sh, [robj, rh_kf], unwind=30, functions=lf, cbmc_args=FS,
-                          known={r"invariant-and-rate-reach-the-builder-in-the-order-it-takes-them": "C04-KF1"}, note="unrestricted: fails exactly inside the known-finding class"))
+    rj, rs = reader_jobs(work, builder)
+    jobs += rj
     slices = slices + rs
     return {
         "jobs": jobs, "slices": b8["slices"] + [s.info() for s in slices],
